@@ -1,0 +1,94 @@
+//go:build verif
+
+package canary
+
+// Contracts for the raw listener (properties C02, C14, C20), checked by /verif/govc.
+// Comment-only file: it adds nothing to any build.
+//
+// Object invariant of a started Canary: frames only arrive through a configured interface.
+//@ spec canaryOK(c *Canary) bool = len(c.networkInterfaces) >= 1
+//
+// Every connection state in the table was made by NewState from a parsed IPv4 header, so its
+// addresses are in the 16-byte form (the checksum code indexes bytes 12..15).
+//@ spec stateOK(s *State) bool = len(s.SrcIP) == 16 && len(s.DestIP) == 16
+//@ spec tableOK(st *StateTable) bool = forall j int :: 0 <= j && j < 65535 && (*st)[j] != nil ==> stateOK((*st)[j])
+//@ spec ctableOK(c *Canary) bool = forall j int :: 0 <= j && j < 65535 && c.stateTable[j] != nil ==> stateOK(c.stateTable[j])
+//
+//@ func (*Canary).isMe
+//@   check safety
+//@   modifies nothing
+//
+//@ func (ARPCache).Get
+//@   check safety
+//@   modifies nothing
+//
+//@ func (*StateTable).Get
+//@   check safety
+//@   requires tableOK(st)
+//@   ensures result != nil ==> stateOK(result)
+//@   modifies nothing
+//
+//@ func (*StateTable).Add
+//@   check safety
+//@   requires tableOK(st) && stateOK(state)
+//@   ensures tableOK(st)
+//@   modifies *st
+//@   loop 1: invariant forall j int :: 0 <= j && j <= rangeindex ==> (*st)[j] != nil
+//
+//@ func (*StateTable).Remove
+//@   check safety
+//@   requires tableOK(st)
+//@   ensures tableOK(st)
+//@   modifies *st
+//
+//@ func (*Canary).NewState
+//@   check safety
+//@   ensures result != nil && fresh(result)
+//@   ensures len(result.SrcIP) == len(src) && len(result.DestIP) == len(dest)
+//@   ensures result.SrcIP == src && result.DestIP == dest && result.SrcPort == srcPort && result.DestPort == dstPort && result.RecvNext == 0
+//@   modifies nothing
+//
+//@ func (*State).NewSocket
+//@   check safety
+//@   ensures result != nil && fresh(result)
+//@   modifies nothing
+//
+//@ func (Socket).write
+//@   check safety
+//@   modifies nothing
+//
+//@ func (Socket).flush
+//@   check safety
+//@   modifies nothing
+//
+//@ func (Socket).close
+//@   check safety
+//@   modifies nothing
+//
+//@ func updateTCPChecksum
+//@   check safety
+//@   requires len(iph.Src) == 16 && len(iph.Dst) == 16 && len(data) >= 20
+//@   modifies data[:]
+//@   loop 1: invariant i & 1 == 0
+//
+//@ func (*Canary).send
+//@   check safety
+//@   requires canaryOK(c) && stateOK(state)
+//@   modifies state.ID
+//@   loop 1: invariant i & 1 == 0
+//
+//@ func (*Canary).handleICMP
+//@   check safety
+//@   requires canaryOK(c)
+//@   modifies nothing
+//
+//@ func (*Canary).handleUDP
+//@   check safety
+//@   requires canaryOK(c)
+//@   modifies nothing
+//
+//@ func (*Canary).handleTCP
+//@   check safety
+//@   requires canaryOK(c) && ctableOK(c) && is4(iph.Src) && is4(iph.Dst) && len(iph.Src) == 16 && len(iph.Dst) == 16
+//@   ensures ctableOK(c)
+//@   modifies *
